@@ -448,13 +448,15 @@ def pred_order(case, stats):
 
     # are the renderings themselves right?  (a wrong rendering is a rendering defect, not an ordering one)
     wrong = False
+    w = []
     for t, s in ((a, sa), (b, sb)):
         m = TEXT_RE.match(s)
         if m is None or len(m.group(7) or '') != 3 or m.group(8) is not None:
             stats.fail('order', 'render:malformed-text', case, observed=s, expected='YYYY-MM-DD HH:MM:SS.fff')
             wrong = True
             continue
-        bad = judge_render(t, 3, [wall_to_us(*[int(g) for g in m.groups()[:6]], frac=m.group(7))])
+        w.append(wall_to_us(*[int(g) for g in m.groups()[:6]], frac=m.group(7)))
+        bad = judge_render(t, 3, [w[-1]])
         if bad is not None:
             stats.fail('order', bad[0], case, observed={'text': s, 'detail': bad[1]},
                        expected='the UTC time of instant %r to the millisecond' % (t,))
@@ -489,6 +491,16 @@ def pred_order(case, stats):
     if sa == sb and not (eq and le and ge and not lt and not gt and not ne):
         stats.fail('order', 'order:equal-renderings-compare-unequal', case, observed=obs,
                    expected='equal renderings compare equal')
+    # Instants nearer than the rendering resolution may compare equal although their renderings differ (class
+    # docstring: epsilon = 10^-3 = resolution of the rendering).  One epsilon plus two half-millisecond roundings is
+    # 2 ms; an "equal" (or <=, >= against the order of the renderings) verdict for renderings further apart is a
+    # contradiction.
+    apart_ms = abs(w[0] - w[1]) // 1000
+    if eq and sa != sb:
+        stats.count('ord:observed:compare-equal-renderings-%s-ms-apart' % (apart_ms if apart_ms <= 2 else 'over-2'))
+    if apart_ms > 2 and ((sa < sb and ge) or (sa > sb and le)):
+        stats.fail('order', 'order:renderings-over-2ms-apart-compare-equal', case, observed=dict(obs, renderings_apart_ms=apart_ms),
+                   expected='instants whose renderings are more than 2 ms apart compare in the order of the renderings')
 
 
 def pred_duration(case, stats):
@@ -620,7 +632,7 @@ CARRY_FRACTIONS = [0.9995, 0.99951, 0.9996, 0.9999, 0.99995, 0.999995, 0.9999995
 YEAR_STARTS = [int((datetime.datetime(y, 1, 1) - EPOCH).total_seconds()) for y in range(1875, 2129)]
 NEAR_FRACTIONS = [0.0, 0.0004, 0.0005, 0.5, 0.9995, 0.9999996]
 PAIR_DELTAS = [0.0, 1e-7, 4e-4, 4.9e-4, 5e-4, 5.1e-4, 9.9e-4, 9.99e-4, 0.001, 0.0010000001, 0.00100001, 0.00101,
-               0.0014, 0.0015, 0.0016, 0.002, 0.0025, 0.01, 1.0]
+               0.0014, 0.0015, 0.0016, 0.002, 0.0025, 0.003, 0.004, 0.0099, 0.01, 1.0]
 N_HUG, N_PROBE = 25, 13
 
 
@@ -897,7 +909,8 @@ def run(tier, seed):
         'gap/fold; plus 7 fixed instants x 4 precisions per zone'
         % (LO + 200000, HI - 200000, len(ZONES), 'all' if thorough else '4 (rotating)', 'all' if thorough else '3 (rotating)'))
     common.parallel(shard_small, [excl], stats=stats)
-    stats.exhaustive['order-pairs'] = '%d base instants x 9 grid deltas x 19 pair distances x 2 signs' % len(ORDER_BASES)
+    stats.exhaustive['order-pairs'] = ('%d base instants x 9 grid deltas x %d pair distances x 2 signs'
+                                       % (len(ORDER_BASES), len(PAIR_DELTAS)))
     stats.exhaustive['utc-renderings'] = ('%d base instants (incl. the last second of every 16th year) x 22 fractions x 7 precisions, '
                                          'rendered in UTC without zone suffix' % (len(ORDER_BASES) + len(YEAR_STARTS[::16])))
     stats.exhaustive['durations'] = 'every combination of {0, 1, max} per unit (y<=300 w d h m s) x 12 sub-second values'
